@@ -727,6 +727,15 @@ def _ensure_codepoints_will_have_glyphs(ufo, glyph_inputs):
 
 def _generate_color_font(config: FontConfig, inputs: Iterable[InputGlyph]):
     """Make a UFO and optionally a TTFont from svgs."""
+    inputs = tuple(inputs)
+    glyph_names = Counter(i.glyph_name for i in inputs)
+    duplicate_names = sorted(n for n, c in glyph_names.items() if c > 1)
+    if duplicate_names:
+        # e.g. emoji_u1f600.svg and 1F600.svg; only one of them could end up in the font
+        raise ValueError(
+            f"Multiple inputs map to the same glyph: {', '.join(duplicate_names)}"
+        )
+
     ufo = _ufo(config)
     _ensure_codepoints_will_have_glyphs(ufo, inputs)
 
